@@ -27,10 +27,23 @@ SD = "specs/collfs"
 NAMES = [[97], [98], [99], [120], [121]]          # a b c x y
 UP = [46, 46]
 OUT, MNT, SEC, ETC, M_, S_, K_ = [111, 117, 116], [109, 110, 116], [115, 101, 99], [101, 116, 99], [109], [115], [107]
-MOUNT_PATHS = [[], [[102]], [[103]], [[100]], [[100], [104]]]      # "", f, g, d, d/h of OutputCopy!MountManifest
 CONTENTS = [302, 401, 503, 0, 601, 302]
-MOUNT = [{"name": [46], "blocks": [103, 0, 202], "toks": [{"pos": 0, "len": 4, "name": [102]}, {"pos": 1, "len": 0, "name": [103]}]},
-         {"name": [46, 47, 100], "blocks": [202, 103], "toks": [{"pos": 1, "len": 4, "name": [104]}]}]
+D_, D1_, E_, F_, G_, H_, J_ = [100], [100, 49], [101], [102], [103], [104], [106]
+# OutputCopy!MountFamily and OutputCopy!MountCfgs, with the paths that exist below the mounted subtree
+FAMILY = {
+    1: [{"name": [46], "blocks": [103, 0, 202], "toks": [{"pos": 0, "len": 4, "name": F_}, {"pos": 1, "len": 0, "name": G_}]},
+        {"name": [46, 47] + D_, "blocks": [202, 103], "toks": [{"pos": 1, "len": 4, "name": H_}]}],
+    2: [{"name": [46, 47] + D_, "blocks": [103], "toks": [{"pos": 0, "len": 3, "name": H_}]},
+        {"name": [46, 47] + D1_, "blocks": [202], "toks": [{"pos": 0, "len": 2, "name": K_}]},
+        {"name": [46, 47] + D1_ + [47] + E_, "blocks": [202, 103], "toks": [{"pos": 1, "len": 3, "name": J_}]}],
+}
+MOUNT_CFGS = [("none", 1, [], [[]]),
+              ("outside", 1, [], [[], [F_], [G_], [D_], [D_, H_]]),
+              ("beneath", 1, [], [[], [F_], [G_], [D_], [D_, H_]]),
+              ("outside", 2, [], [[], [D_], [D_, H_], [D1_], [D1_, K_], [D1_, E_], [D1_, E_, J_]]),
+              ("outside", 2, [D_], [[], [H_]]),
+              ("beneath", 2, [D_], [[], [H_]]),
+              ("beneath", 2, [], [[], [D_], [D_, H_], [D1_], [D1_, K_], [D1_, E_], [D1_, E_, J_]])]
 
 
 def clean(comps):
@@ -44,48 +57,62 @@ def clean(comps):
 
 
 def rand_tree(rnd):
-    mnt = rnd.choice(["none", "outside", "beneath"])
-    sec = rnd.choice(["none", "outside", "beneath"])
+    mnt, fam, mpath, mpaths = rnd.choice(MOUNT_CFGS)
     mroot = {"none": None, "outside": [MNT], "beneath": [OUT, M_]}[mnt]
-    sroot = {"none": None, "outside": [SEC, K_], "beneath": [OUT, S_]}[sec]
     while True:
         nodes = {}
         dirs = [()]
-        for _ in range(rnd.randint(3, 14)):
+        # directories and files first ...
+        for _ in range(rnd.randint(2, 10)):
             parent = rnd.choice(dirs)
             if len(parent) >= 4:
                 continue
             p = parent + (tuple(rnd.choice(NAMES)),)
             if p in nodes:
                 continue
-            k = rnd.choice(["dir", "dir", "dir", "file", "file", "file", "link", "link"])
-            n = {"path": [list(x) for x in p], "k": k, "c": 0, "abs": False, "tg": []}
+            k = rnd.choice(["dir", "dir", "file", "file"])
+            nodes[p] = {"path": [list(x) for x in p], "k": k, "c": rnd.choice(CONTENTS) if k == "file" else 0, "abs": False, "tg": []}
             if k == "dir":
                 dirs.append(p)
-            elif k == "file":
-                n["c"] = rnd.choice(CONTENTS)
-            else:
-                r = rnd.random()
-                others = [q for q in nodes if q != p[:len(q)]]           # existing entries that are not ancestors
-                if r < 0.35 and others:                                  # an existing entry, relative
-                    q = rnd.choice(others)
-                    i = 0
-                    while i < len(parent) and i < len(q) and parent[i] == q[i]:
-                        i += 1
-                    n["tg"] = [UP] * (len(parent) - i) + [list(x) for x in q[i:]]
-                elif r < 0.5 and others:                                 # an existing entry, absolute
-                    n["abs"], n["tg"] = True, [OUT] + [list(x) for x in rnd.choice(others)]
-                elif r < 0.7 and mroot:                                  # into the mounted collection
-                    n["abs"], n["tg"] = True, mroot + rnd.choice(MOUNT_PATHS)
-                elif r < 0.8 and sroot:                                  # a secret
-                    n["abs"], n["tg"] = True, sroot
-                elif r < 0.9:                                            # anything relative: missing, cyclic, escaping
-                    n["tg"] = rnd.choice([[rnd.choice(NAMES)], [UP], [UP, rnd.choice(NAMES)], [rnd.choice(NAMES), rnd.choice(NAMES)],
-                                          [UP, UP, rnd.choice(NAMES)], [UP, UP, UP, UP, UP, ETC]])
-                else:                                                    # anything absolute
-                    n["abs"] = True
-                    n["tg"] = rnd.choice([[OUT, rnd.choice(NAMES)], [MNT] + rnd.choice(MOUNT_PATHS), [OUT, M_] + rnd.choice(MOUNT_PATHS),
-                                          [SEC, K_], [OUT, S_], [ETC, K_], [OUT]])
+        # ... then where the secret is: nowhere, outside, directly beneath /out, or in some directory below it ...
+        r = rnd.random()
+        if r < 0.2:
+            sroot = []
+        elif r < 0.35:
+            sroot = [SEC]
+        elif r < 0.55 or len(dirs) == 1:
+            sroot = [OUT, S_]
+        else:
+            sroot = [OUT] + [list(x) for x in rnd.choice(dirs[1:])] + [S_]
+        # ... then the links
+        for _ in range(rnd.randint(1, 5)):
+            parent = rnd.choice(dirs)
+            if len(parent) >= 4:
+                continue
+            p = parent + (tuple(rnd.choice(NAMES)),)
+            if p in nodes:
+                continue
+            n = {"path": [list(x) for x in p], "k": "link", "c": 0, "abs": False, "tg": []}
+            r = rnd.random()
+            others = [q for q in nodes if q != p[:len(q)]]           # existing entries that are not ancestors
+            if r < 0.4 and others:                                   # an existing entry, relative
+                q = rnd.choice(others)
+                i = 0
+                while i < len(parent) and i < len(q) and parent[i] == q[i]:
+                    i += 1
+                n["tg"] = [UP] * (len(parent) - i) + [list(x) for x in q[i:]]
+            elif r < 0.55 and others:                                # an existing entry, absolute
+                n["abs"], n["tg"] = True, [OUT] + [list(x) for x in rnd.choice(others)]
+            elif r < 0.75 and mroot:                                 # into the mounted collection (something that exists there)
+                n["abs"], n["tg"] = True, mroot + rnd.choice(mpaths)
+            elif r < 0.82 and sroot:                                 # the secret
+                n["abs"], n["tg"] = True, sroot + ([K_] if sroot == [SEC] else [])
+            elif r < 0.91:                                           # anything relative: missing, cyclic, escaping
+                n["tg"] = rnd.choice([[rnd.choice(NAMES)], [UP], [UP, rnd.choice(NAMES)], [rnd.choice(NAMES), rnd.choice(NAMES)],
+                                      [UP, UP, rnd.choice(NAMES)], [UP, UP, UP, UP, UP, ETC]])
+            else:                                                    # anything absolute outside the mounts / missing
+                n["abs"] = True
+                n["tg"] = rnd.choice([[OUT, rnd.choice(NAMES)], [ETC, K_], [OUT], [SEC, K_], [OUT, S_]])
             nodes[p] = n
         kinds = {p: n["k"] for p, n in nodes.items()}
         ok = True
@@ -97,10 +124,13 @@ def rand_tree(rnd):
             if tp[:1] == [OUT]:
                 for i in range(2, len(tp)):
                     if kinds.get(tuple(tuple(x) for x in tp[1:i])) == "link":
-                        ok = False
+                        ok = False                                   # passes THROUGH another link: not judged
+            if mroot and tp[:len(mroot)] == mroot and tp[len(mroot):] not in mpaths:
+                ok = False                                           # names nothing in the collection mount: not judged
         if ok and any(n["k"] == "link" for n in nodes.values()):
             order = sorted(nodes, key=lambda p: (len(p), p))
-            return {"nodes": [nodes[p] for p in order], "mnt": mnt, "sec": sec, "mount": MOUNT, "experr": False, "random": True}
+            return {"nodes": [nodes[p] for p in order], "mnt": mnt, "mpath": mpath, "sec": sroot, "mount": FAMILY[fam],
+                    "experr": False, "random": True}
 
 
 def run(ctx):
@@ -146,14 +176,17 @@ def run(ctx):
         raise vlib.InfraError("TLC OutputCopy/%s did not pass (rc=%d, violated=%s):\n%s" % (mc_cfg, rc, r.violated, r.tail()))
     # ---- evidence
     def shape(s):
-        return (s["mnt"], s["sec"], tuple((str(n["path"]), n["k"], n["abs"], str(n["tg"])) for n in s["nodes"]))
+        return (s["mnt"], str(s["mpath"]), str(s["sec"]), len(s["mount"]),
+                tuple((str(n["path"]), n["k"], n["abs"], str(n["tg"])) for n in s["nodes"]))
     ctx.extra["distinct_nontrivial"] = len({shape(s) for s in scns if any(n["k"] == "link" for n in s["nodes"])})
     ctx.extra["expected_errors_among_generated"] = sum(1 for s in scns if s["experr"])
     ctx.extra["random_trees"] = nrand
     ctx.extra["copies_ok"] = sum(1 for t in traces if t[1].get("kind") == "ok")
     ctx.rule = ("scenarios = every output tree of OutputCopy.tla within the Gen bounds (5 candidate paths, each absent / "
                 "directory / file / symlink to one of the listed relative or absolute targets incl. chains, cycles, "
-                "escapes, collection and secret mounts outside or beneath the output path) plus seeded random trees (depth <= 4, up "
+                "escapes; a collection mount outside or beneath the output path showing all or one directory of one of two "
+                "collections, one of which has directories whose names are prefixes of each other; a secret mount outside, "
+                "beneath the output path or inside one of its subdirectories) plus seeded random trees (depth <= 4, up "
                 "to 14 entries, random relative/absolute targets); non-trivial = trees with at "
                 "least one symlink, distinct by (mount mode, secret mode, node kinds and targets)")
     ex = [t for t in traces if t[1].get("kind") == "ok" and len(t[1].get("out", [])) > 1][:2] + \
@@ -164,7 +197,7 @@ def run(ctx):
                         "concretiser/abstraction of C10 (block id <-> content bytes, tokenising of the returned manifest)",
                         "description of newly written blocks by the host contents they hold (content bytes identify file and offset)"]
     ctx.assumptions = ["link targets never pass through another link and never name a missing path inside a collection mount",
-                       "one fixed mounted collection; no writable collection mounts, no special files, no huge files",
+                       "two mounted collections to choose from; no writable collection mounts, no special files, no huge files",
                        "names are plain ASCII here (name escaping is C10's subject)"]
     ctx.exhaustive = False
 
